@@ -163,6 +163,34 @@ def check_levels(rep, proj):
     rep.floor("asymptotic channels with content", n_ch, 10)
 
 
+def check_mass(rep, proj, tier):
+    """FFNS - FFN0 can only vanish if the logarithms L = ln(Q2/m^2) of an asymptotic kernel carry the mass of the quark whose massive kernel it replaces."""
+    from . import c09
+
+    jobs_ = []
+    for kind, fl, (proc, projectile), (fns, nfff) in itertools.product(
+        ["F2", "FL", "F3", "g1"], ["total", "bottom", "charm", "top"], [("NC", "electron"), ("CC", "neutrino")], [("FFN0", 3), ("FFN0", 4), ("FONLL-FFN0", 3), ("FONLL-FFN0", 4)]
+    ):
+        if (proc == "CC" and kind == "g1") or (fl == "charm" and nfff == 4) or (tier == "quick" and fl == "top" and kind != "F2"):
+            continue
+        jobs_.append(dict(obs=f"{kind}_{fl}", process=proc, projectile=projectile, fns=fns, nfff=nfff, pto=2, ren_sv=False, fact_sv=False))
+    outs = sweep.run_cells(c09._mass_job, jobs_)
+    n_k = 0
+    for kw, o in zip(jobs_, outs):
+        label = f"{kw['obs']}|{kw['process']}|{kw['fns']}|NfFF={kw['nfff']}"
+        if o[0] == "fold":
+            if o[1] == "rejected":
+                rep.ok("C08.mass", "", label, f"configuration explicitly rejected ({o[2][:50]})")
+            else:
+                rep.undecided("C08.mass", "", label, f"not foldable ({o[1]}): {o[2]}")
+            continue
+        _, bad, nbad, n = o
+        n_k += n
+        rep.check(nbad == 0, "C08.mass", "src/yadism/coefficient_functions/asy/kernels.py", label,
+                  f"{n} mass-carrying asymptotic kernels carry the mass of the quark their weights name", "; ".join(bad)[:500], key=label)
+    rep.floor("mass-carrying asymptotic kernels inspected", n_k, 150)
+
+
 def run(rep, proj, tier):
     rep.explanation = (
         "The asymptotic limit itself is numerical and NOT decided. Decided is a necessary structural clause on partially evaluated operators: for "
@@ -170,12 +198,14 @@ def run(rep, proj, tier):
         "operators carry exactly the same (coupling weight, physical channel) pairs, except that a massive term may lack an asymptotic partner in the frozen "
         "power-suppressed case F_L at LO. An asymptotic term whose weight has no massive counterpart can never cancel; a missing Asy* class or "
         "order shows up as a mismatch or as a failed fold; and at each order the Asy{N^k}LL classes of a channel provide every power "
-        "of the collinear logarithm (contiguous levels)."
+        "of the collinear logarithm (contiguous levels); and every asymptotic kernel built in FFN0 / FONLL-FFN0 runs takes its logarithm "
+        "L = ln(Q2/m^2) with the mass of the heavy quark named by its coupling weights (the mass of its massive counterpart)."
     )
     rep.rule_text = "cells from literal domains; comparisons per (order, parton row); non-trivial = at least one side carries a weight; distinct by cell label."
     rep.trusted_base = ["CPython ast", "yadsa partial evaluator with opaque coupling weights w(pid, type[, mask])"]
     rep.assumptions = ["heavy coefficient functions folded above threshold", "F_L(LO, massive) is proportional to m^2/Q^2 (Kretzer-Schienbein; gluck-ccheavy)"]
     check_levels(rep, proj)
+    check_mass(rep, proj, tier)
     js = jobs(tier)
     outs = sweep.run_cells(_job, js)
     n_cmp = 0
